@@ -147,14 +147,16 @@ def handler_case(LKm, cfg):
         t = TPm.Template(H_SITES[cfg["site"]], lookup=lk)
     else:
         t = lk.get_template("main")
+    # data named like builtins (the error page must not read its own helpers through the failed render's context)
+    extra = dict(max=3, min=2, len=1, range=0, str="s") if cfg.get("data_named_like_builtins") else {}
     try:
-        out = t.render_unicode(boom=boom)
+        out = t.render_unicode(boom=boom, **extra)
         res = ("returned", out if len(out) < 80 else ("error page naming %s" % type(E).__name__ if type(E).__name__ in out else "some long text"))
     except BaseException as e:
         res = ("raised", "the same object" if e is E else "another exception: %r" % (e,))
     state["raise"] = False
     try:
-        again = t.render_unicode(boom=boom)
+        again = t.render_unicode(boom=boom, **extra)
     except BaseException as e:
         again = "raised %r" % (e,)
     return res, calls, again
@@ -181,6 +183,8 @@ def handler_expected(cfg):
 def h_handlers(p):
     cfg = dict(site=list(H_SITES)[p.choose(len(H_SITES), "site")], error_handler=[None, "accept", "decline"][p.choose(3, "error_handler")],
                format_exceptions=bool(p.choose(2, "format_exceptions")), exception=list(KINDS)[p.choose(len(KINDS), "exception_kind")])
+    if cfg["format_exceptions"]:
+        cfg["data_named_like_builtins"] = bool(p.choose(2, "data_named_like_builtins"))
     if cfg["site"] == "include":
         cfg["include_error_handler"] = [None, "accept", "decline"][p.choose(3, "include_error_handler")]
         cfg["main_from"] = ["lookup.get_template", "Template(lookup=)"][p.choose(2, "page_built_by")]
